@@ -547,6 +547,7 @@ func runFuncs(r *core.Run) {
 	r.NontrivialN(int64(len(cases)))
 	r.Set("func_cases", len(cases))
 	r.Set("func_complete", ok)
+	bounds["func_signature_params"] = 2
 }
 
 func replayFunc(r *core.Run, fc *FuncCase) {
